@@ -152,15 +152,24 @@ class KModule:
 # obligations from the interpreter -> PathOut obligations
 # ---------------------------------------------------------------------------------------------
 
+HINTS = {}      # obligation label -> extra constraint to try first when looking for a refuting model (see common.run_job)
+
+
 def ob_list(it, kinds=None, prefix=''):
     out = []
     groups = {}
+    hints = {}
     for ob in it.obligations:
         if kinds and ob.kind not in kinds:
             continue
         groups.setdefault((ob.kind, ob.label, ob.where), []).append(ob.cond)
+        if getattr(ob, 'clear_cut', None) is not None:
+            hints.setdefault((ob.kind, ob.label, ob.where), []).append(ob.clear_cut)
     for (kind, label, where), conds in groups.items():
-        out.append(('%s%s: %s (%s)' % (prefix, kind, label, where), conj(conds)))
+        lab = '%s%s: %s (%s)' % (prefix, kind, label, where)
+        out.append((lab, conj(conds)))
+        if (kind, label, where) in hints:
+            HINTS[lab] = core.sor(*hints[(kind, label, where)])
     return out
 
 
@@ -301,7 +310,9 @@ def dist_job(metric, dtype, rows, feats, with_out=False):
             else:
                 obs.append(('out[i] * n_features == #{j: x_j != y_j}', conj([rc[i] * feats == want[i] for i in range(rows)])))
         obs.append(('inputs-unmodified', conj([a == b for a, b in zip(X.cells() + y.cells(), X0.cells() + y0.cells())])))
-        return PathOut(obs, {}, witness, desc='%s[%s] %dx%d' % (metric, dtype, rows, feats))
+        po = PathOut(obs, {}, witness, desc='%s[%s] %dx%d' % (metric, dtype, rows, feats))
+        po.refute_hints = dict(HINTS)
+        return po
     return path
 
 
